@@ -483,6 +483,17 @@ fn cases(thorough: bool) -> Vec<Case> {
         none.clone(),
         pb,
     );
+    with(
+        "get||connect-expiry-dispute",
+        expiry_cfg,
+        expiry_pre.clone(),
+        vec![vec![g17.clone()], vec![AOp::Connect { hash: 2024, txs: vec![7] }]],
+        none.clone(),
+        pb,
+    );
+    // get_subscription_info against requests
+    with("getsub||add-new", std_cfg(), reg12.clone(), vec![vec![AOp::GetSub(1)], vec![a17.clone()]], none.clone(), pb);
+    with("getsub||reg-old", std_cfg(), reg12.clone(), vec![vec![AOp::GetSub(1)], vec![AOp::Reg(1)]], none.clone(), pb);
     // get_subscription_info away from the boundary
     with("getsub||connect-empty", std_cfg(), vec![reg12.clone(), vec![(a17.clone(), none.clone())]].concat(), vec![vec![AOp::GetSub(1)], vec![c_empty.clone()]], none.clone(), pb);
     with("getsub||connect-purge", purge_cfg, purge_pre.clone(), vec![vec![AOp::GetSub(1)], vec![c_purge.clone()]], none.clone(), pb);
